@@ -368,3 +368,24 @@ Proof.
   all: try (apply sclean_app_other; [assumption | intros [E|(j' & E)]; discriminate]).
   all: try (fwd_facts I; apply sclean_app_nostop; [lia | discriminate]).
 Qed.
+
+Lemma step_j2 : forall s lb s', InvE s -> lstep s lb = Some s' ->
+  forall c m, helper c -> In m (qu s' c) -> is_startish m -> S (se (th s' c)) = sid s'.
+Proof.
+  intros s lb s' I H c m Hc.
+  pose proof (e_j2 _ _ _ I c m Hc) as J2.
+  assert (Hc0 : c <> 0) by (unfold WorkersInv.helper in Hc; lia).
+  pose proof (e_sc _ _ _ I c Hc) as SC.
+  pose proof (e_g1 _ _ _ I c (helper_le _ Hc)) as G1.
+  step_inv_fine H; crunch; use_eqs; auto.
+  all: try (intros Hin Hm; apply J2; auto; right; exact Hin).
+  all: try pcs_facts I.
+  all: try match goal with w : fwd |- _ => destruct w end; cbn [fwd_purge fwd_cmd] in *.
+  all: try fwd_facts I; try congruence.
+  all: intros Hin Hm.
+  all: try (exfalso; simpl in SC; exact (SC m Hin Hm)).
+  all: try (specialize (J2 Hin Hm); phase_facts' I; lia).
+  all: try (apply in_app_or in Hin; destruct Hin as [Hin|[<-|[]]];
+            try (apply in_purge in Hin; destruct Hin as (Hin & _)); auto;
+            try (destruct Hm as [Hm|(j' & Hm)]; discriminate); try lia).
+Qed.
